@@ -112,7 +112,10 @@ StateMonitors(e, s2, hv2) ==
 NoPanic(e) == Check(e.res # "panic", "C06", "NoPanic", e, IF Has(e, "detail") THEN e.detail ELSE "")
 
 \* ------------------------------------------------------------- the events
-IsEv(n) == l <= Len(Rec) /\ Rec[l].ev = n
+\* a step the harness could not execute at all (res = "skip": e.g. the message it needs was never
+\* produced on the real code) carries no observation of the operation: it is consumed by TSkipped
+Skipped == l <= Len(Rec) /\ "res" \in DOMAIN Rec[l] /\ Rec[l].res = "skip"
+IsEv(n) == l <= Len(Rec) /\ Rec[l].ev = n /\ ~Skipped
 E == Rec[l]
 S2 == ObsWorld(Rec[l].obs)          \* the observed next state
 \* a wallet is "dirty" (C04 does not apply until a scan repairs it) once it holds a
@@ -587,13 +590,16 @@ TReopen ==
 \* ---- anything else: observe only ------------------------------------------
 Known == {"reset", "init_send", "lock", "receive", "finalize", "cancel", "post", "mine", "node_up", "node_down",
           "refresh", "create_account", "set_active", "build_coinbase", "issue_invoice", "process_invoice", "crash", "trunc", "fork", "restore", "diverge", "scan", "reopen"}
-TOther == /\ l <= Len(Rec) /\ Rec[l].ev \notin Known
+TOther == /\ l <= Len(Rec) /\ Rec[l].ev \notin Known /\ ~Skipped
           /\ Step(hv)
+TSkipped == /\ Skipped
+            /\ CheckMatch(S2 = st, E, "SkippedStepChangedTheWorld")
+            /\ Step(hv)
 
 TInit == /\ l = 1 /\ st = [w |-> <<>>, chain |-> <<>>, pool |-> {}, body |-> <<>>, reg |-> <<>>, nrep |-> <<>>]
          /\ hv = EmptyHist({}) /\ aux = [nodeUp |-> TRUE, dirty |-> {}, pre |-> <<>>, hvpre |-> EmptyHist({}), ope |-> <<>>, fresh |-> {}, mustRevert |-> {}]
 TNext == \/ TReset \/ TInitSend \/ TLock \/ TReceive \/ TFinalize \/ TCancel \/ TPost \/ TMine \/ TNode
-         \/ TRefresh \/ TAccount \/ TBuildCoinbase \/ TIssueInvoice \/ TProcessInvoice \/ TCrash \/ TTrunc \/ TFork \/ TRestore \/ TDiverge \/ TScan \/ TReopen \/ TOther
+         \/ TRefresh \/ TAccount \/ TBuildCoinbase \/ TIssueInvoice \/ TProcessInvoice \/ TCrash \/ TTrunc \/ TFork \/ TRestore \/ TDiverge \/ TScan \/ TReopen \/ TOther \/ TSkipped
 TSpec == TInit /\ [][TNext]_tvars
 
 \* every line must have been consumed (the spec has no way to get stuck other
